@@ -75,7 +75,7 @@ Proof. destruct m; cbn; congruence. Qed.
 Lemma mon_run_app m a b : mon_run m (a ++ b) = mon_run (mon_run m a) b.
 Proof. unfold mon_run. apply fold_left_app. Qed.
 
-Ltac bust s := destruct s as [i ms tr cn h rc sl fi]; destruct i, ms, tr, cn, h.
+Ltac bust s := destruct s as [i ms tr cn h rc sl fi pz]; destruct i, ms, tr, cn, h.
 
 Lemma send_initial_inv s m s' out r :
   invb s m = true -> send_initial s = (s', out, r) -> invb s' (mon_run m out) = true.
@@ -104,6 +104,54 @@ Lemma cancel_inv s m s' out r :
 Proof.
   intros Hi Hs. bust s; destruct m; cbn in Hi; try discriminate Hi;
     cbn in Hs; inversion Hs; subst; reflexivity.
+Qed.
+
+(* the calls as the handler makes them (part-way failures, paused transport) *)
+Lemma do_send_initial_inv s f m s' out r :
+  invb s m = true -> do_send_initial s f = PDone s' out r -> invb s' (mon_run m out) = true.
+Proof.
+  intros Hi H. unfold do_send_initial in H.
+  destruct (init_done s); [inversion H; subst; exact Hi|].
+  destruct f; [inversion H; subst; exact Hi|].
+  destruct (paused s); [discriminate|].
+  destruct (send_initial s) as [[s1 o1] r1] eqn:E. inversion H; subst. eapply send_initial_inv; eauto.
+Qed.
+
+Lemma do_send_message_inv c s f m s' out r :
+  invb s m = true -> do_send_message c s f = PDone s' out r -> invb s' (mon_run m out) = true.
+Proof.
+  intros Hi H. unfold do_send_message in H.
+  destruct (paused s).
+  { destruct (negb (init_done s)); [discriminate|].
+    destruct (negb (server_streaming c) && msg_done s); [inversion H; subst; exact Hi|].
+    destruct f; [inversion H; subst; exact Hi | discriminate]. }
+  destruct f.
+  - destruct (init_done s) eqn:Ei.
+    + destruct (negb (server_streaming c) && msg_done s); inversion H; subst; exact Hi.
+    + destruct (send_initial s) as [[s1 o1] r1] eqn:E.
+      pose proof (send_initial_inv _ _ _ _ _ Hi E) as Hi1.
+      destruct r1; try (inversion H; subst; exact Hi1).
+      destruct (negb (server_streaming c) && msg_done s1); inversion H; subst; exact Hi1.
+  - destruct (send_message c s) as [[s1 o1] r1] eqn:E. inversion H; subst. eapply send_message_inv; eauto.
+Qed.
+
+Lemma do_send_trailing_inv c s st msg f m s' out r :
+  invb s m = true -> do_send_trailing c s st msg f = PDone s' out r -> invb s' (mon_run m out) = true.
+Proof.
+  intros Hi H. unfold do_send_trailing in H.
+  destruct (trailing_refused c s st); [inversion H; subst; exact Hi|].
+  destruct f; [inversion H; subst; exact Hi|].
+  destruct (paused s); [discriminate|].
+  destruct (send_trailing c s st msg) as [[s1 o1] r1] eqn:E. inversion H; subst. eapply send_trailing_inv; eauto.
+Qed.
+
+Lemma do_cancel_inv s m s' out r :
+  invb s m = true -> do_cancel s = PDone s' out r -> invb s' (mon_run m out) = true.
+Proof.
+  intros Hi H. unfold do_cancel in H.
+  destruct (cancel_done s); [inversion H; subst; exact Hi|].
+  destruct (paused s); [discriminate|].
+  destruct (cancel s) as [[s1 o1] r1] eqn:E. inversion H; subst. eapply cancel_inv; eauto.
 Qed.
 
 (* the invariant looks at the four flags and the h2 state only *)
@@ -170,7 +218,39 @@ Proof.
     { intros s1 out1 r1 Hi1 Heq.
       destruct (run_ops t e s1 r) as [[[s2 out2] rs0] st0] eqn:Er.
       inversion Heq; subst. rewrite mon_run_app. eapply IH; eauto. }
-    destruct o.
+    assert (Hwait : (let '(s1, oc) := deliver t e s true in
+                     match oc with
+                     | Some c => (s1, [], [RCancelled], Interrupted c)
+                     | None => (s1, [], [], Stuck)
+                     end) = (s', out, rs, stp) ->
+                    mon_safe (mon_run m out) = true /\
+                    (if is_reset stp then hst s' = HClosed else invb s' (mon_run m out) = true)).
+    { intros Hw. destruct (deliver t e s true) as [s1 oc] eqn:Ed.
+      apply deliver_spec in Ed. destruct Ed as ((F1 & F2 & F3 & F4) & _ & _ & Hres & Hnres).
+      destruct oc as [c|]; inversion Hw; subst; cbn [mon_run fold_left];
+        (split; [eapply invb_safe; eauto|]).
+      - destruct c; cbn [is_reset].
+        + apply Hres. reflexivity.
+        + rewrite <- Hi. apply invb_core. core_tac Hnres.
+        + rewrite <- Hi. apply invb_core. core_tac Hnres.
+      - cbn [is_reset]. rewrite <- Hi. apply invb_core. core_tac Hnres. }
+    assert (Hsend : forall ph,
+               (forall s1 out1 r1, ph = PDone s1 out1 r1 -> invb s1 (mon_run m out1) = true) ->
+               match ph with
+               | PDone s1 out1 r1 =>
+                   let '(s2, out2, rs0, st0) := run_ops t e s1 r in (s2, out1 ++ out2, r1 :: rs0, st0)
+               | PWait =>
+                   match deliver t e s true with
+                   | (s1, Some c) => (s1, [], [RCancelled], Interrupted c)
+                   | (s1, None) => (s1, [], [], Stuck)
+                   end
+               end = (s', out, rs, stp) ->
+               mon_safe (mon_run m out) = true /\
+               (if is_reset stp then hst s' = HClosed else invb s' (mon_run m out) = true)).
+    { intros ph Hph Heq. destruct ph as [s1 out1 r1|].
+      - eapply Hcont; [|exact Heq]. eapply Hph; reflexivity.
+      - apply Hwait. destruct (deliver t e s true) as [s1 [c|]]; exact Heq. }
+    destruct o as [|f|f|st m0 f| | |].
     + (* Recv *)
       destruct (recv_outcome e (recvd s)).
       * eapply Hcont; [|exact Hr]. cbn. rewrite <- Hi. apply invb_core. repeat split.
@@ -185,14 +265,10 @@ Proof.
            ++ rewrite <- Hi. apply invb_core. core_tac Hnres.
            ++ rewrite <- Hi. apply invb_core. core_tac Hnres.
         -- cbn [is_reset]. rewrite <- Hi. apply invb_core. core_tac Hnres.
-    + destruct (send_initial s) as [[s1 out1] r1] eqn:E. eapply Hcont; [|exact Hr].
-      eapply send_initial_inv; eauto.
-    + destruct (send_message (e_card e) s) as [[s1 out1] r1] eqn:E. eapply Hcont; [|exact Hr].
-      eapply send_message_inv; eauto.
-    + destruct (send_trailing (e_card e) s st m0) as [[s1 out1] r1] eqn:E. eapply Hcont; [|exact Hr].
-      eapply send_trailing_inv; eauto.
-    + destruct (cancel s) as [[s1 out1] r1] eqn:E. eapply Hcont; [|exact Hr].
-      eapply cancel_inv; eauto.
+    + apply (Hsend (do_send_initial s f)); [|exact Hr]. intros. eapply do_send_initial_inv; eauto.
+    + apply (Hsend (do_send_message (e_card e) s f)); [|exact Hr]. intros. eapply do_send_message_inv; eauto.
+    + apply (Hsend (do_send_trailing (e_card e) s st m0 f)); [|exact Hr]. intros. eapply do_send_trailing_inv; eauto.
+    + apply (Hsend (do_cancel s)); [|exact Hr]. intros. eapply do_cancel_inv; eauto.
     + (* Sleep *)
       destruct (deliver t e s false) as [s1 oc] eqn:Ed.
       apply deliver_spec in Ed. destruct Ed as ((F1 & F2 & F3 & F4) & _ & _ & Hres & Hnres).
@@ -204,6 +280,8 @@ Proof.
         -- rewrite <- Hi. apply invb_core. core_tac Hnres.
       * eapply Hcont; [|exact Hr]. cbn [mon_run fold_left]. rewrite <- Hi. apply invb_core.
         core_tac Hnres.
+    + (* Pause *)
+      eapply Hcont; [|exact Hr]. cbn [mon_run fold_left]. rewrite <- Hi. apply invb_core. repeat split.
 Qed.
 
 (* ------------------------------------------------------------------------------------------------ *)
@@ -431,7 +509,7 @@ Qed.
 (* facts about the output so far that the flags stand for *)
 Definition K (ops_all : list op) (c : card) (s : sstate) (acc : list frame) : Prop :=
   (trail_done s = false -> final_status acc = None) /\
-  (trail_done s = true -> exists st m, In (SendTrailing st m) ops_all /\ final_status acc = Some (st, m)) /\
+  (trail_done s = true -> exists st m, In (SendTrailing st m false) ops_all /\ final_status acc = Some (st, m)) /\
   (msg_done s = false -> count_data acc = 0%nat) /\
   (server_streaming c = false -> msg_done s = true -> count_data acc = 1%nat) /\
   (server_streaming c = false -> forall m, final_status acc = Some (status_ok, m) -> msg_done s = true).
@@ -483,6 +561,68 @@ Proof.
     (repeat split; try reflexivity); ((left; split; reflexivity) || (right; repeat split; reflexivity)).
 Qed.
 
+Lemma do_send_initial_shape s f s' out r :
+  do_send_initial s f = PDone s' out r ->
+  trail_done s' = trail_done s /\ msg_done s' = msg_done s /\ final_status out = None /\ count_data out = 0%nat.
+Proof.
+  unfold do_send_initial. intros H.
+  destruct (init_done s); [inversion H; subst; repeat split|].
+  destruct f; [inversion H; subst; repeat split|].
+  destruct (paused s); [discriminate|].
+  destruct (send_initial s) as [[s1 o1] r1] eqn:E. inversion H; subst. eapply send_initial_shape; eauto.
+Qed.
+
+Lemma do_cancel_shape s s' out r :
+  do_cancel s = PDone s' out r ->
+  trail_done s' = trail_done s /\ msg_done s' = msg_done s /\ final_status out = None /\ count_data out = 0%nat.
+Proof.
+  unfold do_cancel. intros H.
+  destruct (cancel_done s); [inversion H; subst; repeat split|].
+  destruct (paused s); [discriminate|].
+  destruct (cancel s) as [[s1 o1] r1] eqn:E. inversion H; subst. eapply cancel_shape; eauto.
+Qed.
+
+Lemma do_send_message_shape c s f s' out r :
+  do_send_message c s f = PDone s' out r ->
+  trail_done s' = trail_done s /\ final_status out = None /\
+  ((msg_done s' = msg_done s /\ count_data out = 0%nat) \/
+   (msg_done s' = true /\ count_data out = 1%nat /\ (server_streaming c = false -> msg_done s = false))).
+Proof.
+  unfold do_send_message. intros H.
+  destruct (paused s).
+  { destruct (negb (init_done s)); [discriminate|].
+    destruct (negb (server_streaming c) && msg_done s); [inversion H; subst; repeat split; left; split; reflexivity|].
+    destruct f; [inversion H; subst; repeat split; left; split; reflexivity | discriminate]. }
+  destruct f.
+  - destruct (init_done s).
+    + destruct (negb (server_streaming c) && msg_done s); inversion H; subst; repeat split; left; split; reflexivity.
+    + destruct (send_initial s) as [[s1 o1] r1] eqn:E.
+      apply send_initial_shape in E. destruct E as (A & B & C & D).
+      assert (Hsh : trail_done s1 = trail_done s /\ final_status o1 = None /\
+                ((msg_done s1 = msg_done s /\ count_data o1 = 0%nat) \/
+                 (msg_done s1 = true /\ count_data o1 = 1%nat /\ (server_streaming c = false -> msg_done s = false)))).
+      { split; [exact A|]. split; [exact C|]. left. split; assumption. }
+      destruct r1; try (inversion H; subst; exact Hsh).
+      destruct (negb (server_streaming c) && msg_done s1); inversion H; subst; exact Hsh.
+  - destruct (send_message c s) as [[s1 o1] r1] eqn:E. inversion H; subst. eapply send_message_shape; eauto.
+Qed.
+
+Lemma do_send_trailing_shape c s st m f s' out r :
+  do_send_trailing c s st m f = PDone s' out r ->
+  msg_done s' = msg_done s /\ count_data out = 0%nat /\
+  ((trail_done s' = trail_done s /\ out = []) \/
+   (trail_done s = false /\ trail_done s' = true /\ final_status out = Some (st, m) /\ f = false /\
+    negb (server_streaming c) && negb (msg_done s) && (st =? status_ok) = false)).
+Proof.
+  unfold do_send_trailing. intros H.
+  destruct (trailing_refused c s st); [inversion H; subst; repeat split; left; split; reflexivity|].
+  destruct f; [inversion H; subst; repeat split; left; split; reflexivity|].
+  destruct (paused s); [discriminate|].
+  destruct (send_trailing c s st m) as [[s1 o1] r1] eqn:E. inversion H; subst.
+  apply send_trailing_shape in E. destruct E as (A & B & [C|(C & D & F & _ & G)]); repeat split; auto.
+  right. repeat split; auto.
+Qed.
+
 Lemma run_ops_K ops_all c : forall ops t e s acc s' out rs stp,
   e_card e = c -> (forall o, In o ops -> In o ops_all) ->
   K ops_all c s acc -> run_ops t e s ops = (s', out, rs, stp) -> K ops_all c s' (acc ++ out).
@@ -501,18 +641,38 @@ Proof.
     assert (Hsame : forall s1, trail_done s1 = trail_done s -> msg_done s1 = msg_done s ->
                                K ops_all c s1 (acc ++ [])).
     { intros s1 Ht Hm. eapply K_ext; eauto. }
-    destruct o.
+    assert (Hwait : (let '(s1, oc) := deliver t e s true in
+                     match oc with
+                     | Some c0 => (s1, [], [RCancelled], Interrupted c0)
+                     | None => (s1, [], [], Stuck)
+                     end) = (s', out, rs, stp) -> K ops_all c s' (acc ++ out)).
+    { intros Hw. destruct (deliver t e s true) as [s1 oc] eqn:Ed.
+      apply deliver_spec in Ed. destruct Ed as ((F1 & F2 & F3 & F4) & _).
+      destruct oc; inversion Hw; subst; apply Hsame; congruence. }
+    assert (Hsend : forall ph,
+               (forall s1 out1 r1, ph = PDone s1 out1 r1 -> K ops_all c s1 (acc ++ out1)) ->
+               match ph with
+               | PDone s1 out1 r1 =>
+                   let '(s2, out2, rs0, st0) := run_ops t e s1 r in (s2, out1 ++ out2, r1 :: rs0, st0)
+               | PWait =>
+                   match deliver t e s true with
+                   | (s1, Some c0) => (s1, [], [RCancelled], Interrupted c0)
+                   | (s1, None) => (s1, [], [], Stuck)
+                   end
+               end = (s', out, rs, stp) -> K ops_all c s' (acc ++ out)).
+    { intros ph Hph Heq. destruct ph as [s1 out1 r1|].
+      - eapply Hcont; [|exact Heq]. eapply Hph; reflexivity.
+      - apply Hwait. destruct (deliver t e s true) as [s1 [c0|]]; exact Heq. }
+    destruct o as [|f|f|st m f| | |].
     + destruct (recv_outcome e (recvd s)).
       * eapply Hcont; [|exact Hr]. apply Hsame; reflexivity.
       * eapply Hcont; [|exact Hr]. apply Hsame; reflexivity.
       * eapply Hcont; [|exact Hr]. apply Hsame; reflexivity.
-      * destruct (deliver t e s true) as [s1 oc] eqn:Ed.
-        apply deliver_spec in Ed. destruct Ed as ((F1 & F2 & F3 & F4) & _).
-        destruct oc; inversion Hr; subst; apply Hsame; congruence.
-    + destruct (send_initial s) as [[s1 out1] r1] eqn:E. eapply Hcont; [|exact Hr].
-      apply send_initial_shape in E. destruct E as (A & B & C & D). eapply K_ext; eauto.
-    + destruct (send_message (e_card e) s) as [[s1 out1] r1] eqn:E. eapply Hcont; [|exact Hr].
-      apply send_message_shape in E. destruct E as (A & B & [(C & D)|(C & D & F)]).
+      * apply Hwait. destruct (deliver t e s true) as [s1 [c0|]]; exact Hr.
+    + apply (Hsend (do_send_initial s f)); [|exact Hr]. intros s1 out1 r1 E.
+      apply do_send_initial_shape in E. destruct E as (A & B & C & D). eapply K_ext; eauto.
+    + apply (Hsend (do_send_message (e_card e) s f)); [|exact Hr]. intros s1 out1 r1 E.
+      apply do_send_message_shape in E. destruct E as (A & B & [(C & D)|(C & D & F)]).
       * eapply K_ext; eauto.
       * destruct HK as (K1 & K2 & K3 & K4 & K5). unfold K.
         rewrite final_status_app, count_data_app, B, D, A, C. split; [|split; [|split; [|split]]].
@@ -521,10 +681,10 @@ Proof.
         -- discriminate.
         -- intros Hu _. rewrite Hc in F. rewrite (K3 (F Hu)). reflexivity.
         -- reflexivity.
-    + destruct (send_trailing (e_card e) s st m) as [[s1 out1] r1] eqn:E. eapply Hcont; [|exact Hr].
-      apply send_trailing_shape in E. destruct E as (A & B & [(C & D)|(C & D & F & _ & G)]).
+    + apply (Hsend (do_send_trailing (e_card e) s st m f)); [|exact Hr]. intros s1 out1 r1 E.
+      apply do_send_trailing_shape in E. destruct E as (A & B & [(C & D)|(C & D & F & Hf & G)]).
       * subst out1. eapply K_ext; eauto.
-      * destruct HK as (K1 & K2 & K3 & K4 & K5). unfold K.
+      * subst f. destruct HK as (K1 & K2 & K3 & K4 & K5). unfold K.
         rewrite final_status_app, count_data_app, B, D, A, (K1 C), F, Nat.add_0_r.
         split; [|split; [|split; [|split]]].
         -- discriminate.
@@ -533,13 +693,14 @@ Proof.
         -- exact K4.
         -- intros Hu m' H. injection H as Hst _. rewrite Hc, Hu, Hst, Z.eqb_refl in G. cbn in G.
            destruct (msg_done s); [reflexivity | discriminate].
-    + destruct (cancel s) as [[s1 out1] r1] eqn:E. eapply Hcont; [|exact Hr].
-      apply cancel_shape in E. destruct E as (A & B & C & D). eapply K_ext; eauto.
+    + apply (Hsend (do_cancel s)); [|exact Hr]. intros s1 out1 r1 E.
+      apply do_cancel_shape in E. destruct E as (A & B & C & D). eapply K_ext; eauto.
     + destruct (deliver t e s false) as [s1 oc] eqn:Ed.
       apply deliver_spec in Ed. destruct Ed as ((F1 & F2 & F3 & F4) & _).
       destruct oc.
       * inversion Hr; subst. apply Hsame; cbn; congruence.
       * eapply Hcont; [|exact Hr]. apply Hsame; cbn; congruence.
+    + eapply Hcont; [|exact Hr]. apply Hsame; reflexivity.
 Qed.
 
 Lemma K_init ops_all e : K ops_all (e_card e) (init_state e) [].
@@ -604,10 +765,7 @@ Definition returned_normally (k : endkind) : bool :=
 
 Lemma exit_exn_none k : exit_exn k = None -> returned_normally k = true \/ k = KNotRun \/ k = KHang.
 Proof.
-  destruct k as [|f|c|c f|]; cbn; auto.
-  - destruct f; cbn; try discriminate; auto.
-  - destruct c; discriminate.
-  - destruct c; try discriminate. destruct f; cbn; try discriminate; auto.
+  destruct k as [|[|st m|[]|]|[]|[] [|st m|[]|]|]; cbn; intros H; try discriminate H; auto.
 Qed.
 
 (* the shape of every accepted call whose deadline has not expired on arrival *)
@@ -734,7 +892,7 @@ Theorem ok_only_if_normal known hs e p m :
   let r := run_call known hs e p in
   final_status (r_out r) = Some (status_ok, m) ->
   (returned_normally (r_end r) = true \/
-   (exists m', In (SendTrailing status_ok m') (p_ops p)) \/
+   (exists m', In (SendTrailing status_ok m' false) (p_ops p)) \/
    (exists m', exit_exn (r_end r) = Some (EGRPC status_ok m'))) /\
   (server_streaming (e_card e) = false -> count_data (r_out r) = 1%nat).
 Proof.
@@ -873,7 +1031,8 @@ Proof.
                reset_kind (r_end (run_call known hs e p)) = false /\
                r_end (run_call known hs e p) <> KHang).
   { destruct (r_end (run_call known hs e p)) as [|f|c|c f|]; try discriminate Hd;
-      destruct c; try discriminate Hd; repeat split; discriminate. }
+      destruct c; try discriminate Hd; try (destruct f as [|? ?|[]|]);
+      (split; [reflexivity|]); (split; [reflexivity | discriminate]). }
   destruct Hx as (Hx & Hr & Hk). split.
   - eapply grpc_error_status; eauto. intros H. discriminate H.
   - apply exactly_one_terminal_partial; auto. rewrite Hx. unfold silent_exit.
@@ -885,7 +1044,7 @@ Theorem explicit_status_stands known hs e p t :
   validate known hs = VAccept t -> t <> TExpired ->
   let r := run_call known hs e p in
   trail_done (r_pre r) = true ->
-  exists st m, In (SendTrailing st m) (p_ops p) /\ final_status (r_out r) = Some (st, m).
+  exists st m, In (SendTrailing st m false) (p_ops p) /\ final_status (r_out r) = Some (st, m).
 Proof.
   intros Hv Hne. cbn zeta. intros Ht.
   destruct (accept_summary known hs e p t Hv Hne) as (_ & out1 & (K1 & K2 & _) & Hsame & _).
@@ -997,6 +1156,44 @@ Proof.
     intros H; inversion H; subst; repeat split; eauto; discriminate.
 Qed.
 
+(* the handler's OWN exceptions -- including its own asyncio.TimeoutError (an inner wait_for, a database
+   timeout) and StreamTerminatedError / ProtocolError it lets escape -- are UNKNOWN whatever deadline the request
+   carries, as long as that deadline has not fired (then Wrapper.__exit__ has replaced them: deadline_status) *)
+Theorem own_exception_is_unknown known hs e p t k :
+  validate known hs = VAccept t -> t <> TExpired ->
+  let r := run_call known hs e p in
+  (r_end r = KFin (RaiseException k) \/ r_end r = KSwallowed CClose (RaiseException k)) ->
+  trail_done (r_pre r) = false -> cancel_done (r_pre r) = false ->
+  final_status (r_out r) = Some (2, Some internal_msg) /\ accepted (r_out r) = true.
+Proof.
+  intros Hv Hne. cbn zeta. intros Hk Ht Hc.
+  assert (Hx : exit_exn (r_end (run_call known hs e p)) = Some EExc /\
+               reset_kind (r_end (run_call known hs e p)) = false /\
+               r_end (run_call known hs e p) <> KHang).
+  { destruct Hk as [-> | ->]; destruct k; repeat split; discriminate. }
+  destruct Hx as (Hx & Hr & Hh). split.
+  - eapply exception_status; eauto.
+  - apply exactly_one_terminal_partial; auto. rewrite Hx. unfold silent_exit. rewrite andb_false_r. reflexivity.
+Qed.
+
+(* a call that fails part-way (invalid user metadata, a message the codec refuses, a raising listener) or that
+   is cancelled while it waits for the paused transport leaves the flags as they were -- so __aexit__ still
+   knows that no terminal has been sent.  (send_message may have sent the implicit HEADERS before it fails.) *)
+Theorem partway_failure_is_harmless c s :
+  (forall s' out r, do_send_initial s true = PDone s' out r -> s' = s /\ out = [] /\ r <> ROk) /\
+  (forall st m s' out r, do_send_trailing c s st m true = PDone s' out r -> s' = s /\ out = [] /\ r <> ROk) /\
+  (forall s' out r, do_send_message c s true = PDone s' out r ->
+     msg_done s' = msg_done s /\ trail_done s' = trail_done s /\ cancel_done s' = cancel_done s /\
+     count_data out = 0%nat /\ final_status out = None /\ r <> ROk).
+Proof.
+  split; [|split].
+  - unfold do_send_initial. intros s' out r H. destruct (init_done s); inversion H; subst; repeat split; discriminate.
+  - unfold do_send_trailing. intros st m s' out r H.
+    destruct (trailing_refused c s st); inversion H; subst; repeat split; discriminate.
+  - intros s' out r H. unfold do_send_message in H.
+    bust s; destruct pz; destruct c; cbn in H; inversion H; subst; repeat split; discriminate.
+Qed.
+
 (* ------------------------------------------------------------------------------------------------ *)
 (** * Request classification on ALL strings *)
 
@@ -1106,7 +1303,7 @@ Theorem exactly_one_terminal_refuted :
     r_end r <> KHang /\ reset_kind (r_end r) = false /\ accepted (r_out r) = false /\
     exit_exn (r_end r) = Some EBase /\ r_out r = [resp_headers; FData].
 Proof.
-  exists known_paths, good_request, (std_env UU ENone), (mkP [Recv; SendMessage] (Fin RaiseBase) Honour).
+  exists known_paths, good_request, (std_env UU ENone), (mkP [Recv; SendMessage false] (Fin RaiseBase) Honour).
   vm_compute. repeat split; discriminate.
 Qed.
 
@@ -1114,7 +1311,7 @@ Theorem cancelled_by_close_refuted :
   exists known hs e p, let r := run_call known hs e p in
     r_end r = KCancelled CClose /\ accepted (r_out r) = false /\ r_out r = [resp_headers; FData].
 Proof.
-  exists known_paths, good_request, (std_env SS EClose), (mkP [Recv; SendMessage] Wait Honour).
+  exists known_paths, good_request, (std_env SS EClose), (mkP [Recv; SendMessage false] Wait Honour).
   vm_compute. repeat split.
 Qed.
 
